@@ -140,6 +140,20 @@ class DataPacketQueue(utils.EventEmitter):
         # The discarded packets may have freed controller buffers: send what is waiting
         self._check_queue()
 
+    def reset(self) -> None:
+        """
+        Remove all packets and forget all connections.
+
+        To be used when the controller no longer knows any of them (reset, transport
+        lost). Nothing remains in flight, and no 'flow' event is emitted.
+        """
+        for connection_state in self._connection_state.values():
+            connection_state.drained.set()
+        self._connection_state.clear()
+        self._packets.clear()
+        self._completed = self._queued
+        self._in_flight = 0
+
     def _check_queue(self) -> None:
         while self._packets and self._in_flight < self.max_in_flight:
             packet, connection_handle = self._packets.pop()
@@ -327,7 +341,23 @@ class Host(utils.EventEmitter):
 
         # Flush current host state, then release command semaphore
         self.emit('flush')
+        self._forget_links()
         self.command_semaphore.release()
+
+    def _forget_links(self) -> None:
+        # The links, and the data queued for them, are gone with the controller state
+        self.connections.clear()
+        self.cis_links.clear()
+        self.bis_links.clear()
+        self.sco_links.clear()
+        self.bigs.clear()
+        self.link_ts_flags.clear()
+        if self.acl_packet_queue:
+            self.acl_packet_queue.reset()
+        if self.le_acl_packet_queue:
+            self.le_acl_packet_queue.reset()
+        if self.iso_packet_queue:
+            self.iso_packet_queue.reset()
 
     async def reset(self, driver_factory=drivers.get_driver_for_host) -> None:
         if self.ready:
@@ -1001,6 +1031,7 @@ class Host(utils.EventEmitter):
             self.pending_response.set_exception(TransportLostError('transport lost'))
 
         self.emit('flush')
+        self._forget_links()
 
     def on_hci_packet(self, packet: hci.HCI_Packet) -> None:
         logger.debug(f'{color("### CONTROLLER -> HOST", "green")}: {packet}')
